@@ -42,7 +42,7 @@ ASSUMPTIONS = [
     'between histories lru caches are cleared; a poisoned worker aborts as broken harness',
 ]
 REQUIRED_CLASSES = ['A_returned', 'A_rejected', 'B_history', 'B_mutation_applied', 'group_graph', 'group_atoms', 'group_models', 'group_cif', 'cross_group']
-BOUND = {'quick': 'part A full product; part B depth 2 + depth-3 (call,mutate,call)', 'thorough': 'part A full product; part B full depth 3 within groups, depth 2 across groups'}
+BOUND = {'quick': 'part A full product; part B depth 3 within groups (graph group: depth 2 + (call,mutate,call)), depth 2 across groups', 'thorough': 'part A full product; part B full depth 3 for graph factories, depth 4 for lookups / model combinators / CIF combinators, depth 2 across groups'}
 CHUNK = 4
 
 
@@ -401,7 +401,7 @@ def histories(tier):
     out = []
     for gname in GROUPS:
         calls, muts = _events(gname)
-        depth = 3
+        depth = 4 if (tier == 'thorough' and gname != 'graph') else 3
         # a history is a list of events; a mutation targets an earlier result (by index into results)
         def gen(prefix, nres):
             if prefix:
